@@ -599,6 +599,16 @@ def unit_rewrites(ud, rel, s, rw):
         s = rw.literal('T8', s, 'std::f64::consts::E', 'c_e()')
         s = rw.literal('T8', s, 'Decimal::PI', 'dec_c_pi()')
         s = rw.literal('T8', s, 'Decimal::E', 'dec_c_e()')
+    if rel.endswith('/tokenizer.rs') or rel.endswith('deserialize_superscript_number.rs'):
+        # T10: the two adapter-chain idioms -> helpers with assumed contracts (bodies are the original expressions)
+        s = rw.regex('T10', s, r'self\.expr\.clone\(\)\.take\((\d+)\)\.collect::<String>\(\)', r'verif_peek_str(&self.expr, \1)')
+        s = rw.regex('T10', s, r'self\.expr\.by_ref\(\)\.take\((\d+)\)\.for_each\(drop\)', r'verif_skip(&mut self.expr, \1)')
+        # T17: `impl Iterator for Tokenizer { type Item = Token; fn next .. }` -> inherent impl (vstd attaches its prophetic
+        # iterator laws to every `Iterator::next`; the body of `next` is unchanged)
+        s = rw.regex('T17', s, r"impl<'a> Iterator for Tokenizer<'a> \{\s*type Item = Token;", "impl<'a> Tokenizer<'a> {")
+        # T16: text -> number conversions
+        s = rw.regex('T16', s, r'\.parse::<(i64|f64)>\(\)\s*\.ok\(\)', r'.verif_parse_\1()')
+        s = t16_from_str(s, rw)
     if rel.endswith('/ast.rs') and part in ('core', 'ast'):
         # T12: the sort idiom -> helper with an assumed contract (body = the original expression)
         s = rw.regex('T12', s, r'(\w+)\.sort_by\(\|a, b\| a\.partial_cmp\(b\)\.unwrap\(\)\);', r'verif_sort(&mut \1);')
@@ -619,6 +629,26 @@ def unit_rewrites(ud, rel, s, rw):
         # equivalent whenever E + 1 does not overflow, which Verus then has to prove)
         s = rw.regex('T13', s, r'for (\w+) in (\w+)\.\.=\((.+?)\) \{', r'for \1 in \2..((\3) + 1) {')
     return s
+
+
+def t16_from_str(s, rw):
+    out = []
+    i = 0
+    n = 0
+    for m in re.finditer(r'Decimal::from_str\(', s):
+        if m.start() < i:
+            continue
+        close = rsrc.match_close(s, m.end() - 1)
+        mm = re.match(r'\s*\.ok\(\)', s[close + 1:])
+        if not mm:
+            continue
+        out.append(s[i:m.start()])
+        out.append('verif_parse_dec(' + s[m.end():close] + ')')
+        i = close + 1 + mm.end()
+        n += 1
+    out.append(s[i:])
+    rw.count('T16', n)
+    return ''.join(out)
 
 
 def t15_assign_ops(s, rw):
